@@ -96,6 +96,7 @@ class Engine:
                 self.notes = {}
                 self._decls = []
                 self._fresh = 0
+                self._ranks = []
                 self.s.push()
                 try:
                     body(self)
@@ -630,7 +631,7 @@ class SymInt:
         raise Unsupported("bit_count of symbolic int")
 
     def __getattr__(self, name):
-        if name.startswith("__"):
+        if name.startswith("_"):
             raise AttributeError(name)
         raise Unsupported("int.%s on symbolic int" % name)
 
@@ -897,7 +898,7 @@ def sym_int(x=0, base=None):
 def sym_str(x="", *a):
     if isinstance(x, SymInt):
         return SymIntStr(x)
-    if hasattr(x, "__symlen__") and hasattr(x, "chars"):
+    if (hasattr(x, "__symlen__") and hasattr(x, "chars")) or getattr(x, "_ostr", False):
         return x
     if isinstance(x, Rat):
         return "<rat>"
